@@ -16,7 +16,7 @@ d = d[:d.index('\n### 9.6 Seeded changes')]
 d += '''
 ### 9.6 Seeded changes (mutation trials) and which checks catch them
 
-Six rounds of changes were written by fresh sub-agents that saw only the text of
+Seven rounds of changes were written by fresh sub-agents that saw only the text of
 one property and a private worktree of `/repo` (nothing from `/verif`):
 round 1 (A, B for all twenty properties) asked for realistic slips needing
 something specific to manifest; round 2 (C, D for all twenty) told the agent,
@@ -35,13 +35,13 @@ alternative-configuration-only code, compiler-specific arms, one-slot caches,
 changes and further trigger kinds (buffer placement relative to pages and
 alignment classes, compile-time arms, declarations in `include/`, order of use
 of different object kinds, state surviving cleanup, values special to one
-variant); rounds 5 (I, J) and 6 (K, L) are described with their results below.
+variant); rounds 5 (I, J), 6 (K, L) and 7 (M, N, twelve properties) are described with their results below.
 Each change was confirmed with `tools/confirm_seeded.py` in a scratch worktree
 (clean tree: 30 tests pass, demonstration passes; changed tree: 30 tests pass,
 demonstration fails) and the checks were run with `VERIF_REPO=<patched
 worktree>` (quick tier; C07-C and C05-J need the thorough tier).  Everything is kept under
 `seeded/<id>-<X>/` (`patch.diff`, the demonstration, `README.md`, `meta.json`
-with what was run and which violation keys fired).  **All but three are caught** (%d kept; the three are judged out of scope, see round 6) by
+with what was run and which violation keys fired).  **All but nine are caught** (%d kept; the nine are judged out of scope or out of reach, see rounds 6 and 7) by
 the listed checks; about one in eight by the check of the property they
 really violate rather than the one the agent was given (e.g. C01-C and C07-D are
 data races -> C18, C02-C needs `swap_modes` in a W32+NEUTRAL build -> C03/C12,
@@ -249,6 +249,19 @@ Checks strengthened because a seeded change was first missed:
   a legitimate implementation), C15-L (a tool's error path before exit).
   Caught at once in round 6: C02-K, C02-L (by C18), C05-K, C05-L, C06-L, C09-L (by C04), C10-L (by C04/C06), C11-L (by C19),
   C12-L (by C18), C14-K, C15-K, C16-K, C16-L, C17-L, C18-K, C18-L.
+* **Round 7 (M, N; twelve properties)** - the brief listed every monitor family again and asked what a maintainer might do in the
+  coming years that none of them would notice.  First missed and what was added: LTO builds (`+LTO`: a wipe moved behind a
+  function in another file is elided again, C17-N); the Arduino sources now get the variant's extra flags, with
+  `prod+UCHAR+Os` in C19 quick (C19-M); a library built by the repository's own `src/Makefile` as variant `make` in C12/C13;
+  70 000 CTR objects alive at once on the real allocator with a heap-balance check, and the C15 histories in a process where
+  `mlock` fails (C15-M, C15-N); outputs whose path already holds a longer file (C20-M); tweaks that are a shorter prefix of
+  the previous one (C05-N); objects keyed before `fork()` and used in the child (C07-N); buffers k x 4 GiB apart plus or minus
+  a small distance (C09-M); a memcheck sample with NOACCESS slack in the C09 quick tier, because ASan cannot poison the bytes in
+  front of a misaligned buffer inside its 8-byte granule (C18-M); counters equal to the stream position except for one high
+  bit (C06-M).  Caught at once: C05-M, C06-N (by C13), C07-M (by C18), C09-N, C13-N, C14-M, C17-M, C20-N.
+  Judged out of scope or out of reach (notes in `meta.json`): C04-M, C04-N (tweak pointer into the object's own member), C13-M
+  (new opt-in Makefile target), C14-N (lengths >= 2^32 after widening the prototypes), C18-N (missing store fence, no C-level
+  race), C19-N (threads in the Arduino port).
 
 ### 9.7 Behaviour-preserving changes (false-alarm trials)
 
